@@ -27,7 +27,7 @@ impl Intern {
 #[derive(Clone, Debug)]
 enum Fact {
     Extract { salt: u32, ikm: u32 },
-    Expand { prk: u32, label: String, ctx: u32, ctx_len: usize, lenfield: usize, len: usize, ctx_bytes: Vec<u8> },
+    Expand { prk: u32, label: String, ctx: u32, ctx_len: usize, lenfield: usize, len: usize, ctx_bytes: Vec<u8>, ctx_head: u32 },
     Hash { len: usize, pre: u32, suf: u32, whole: u32 },
     Mac { key: u32, data: u32 },
 }
@@ -54,6 +54,41 @@ fn vec_enc(b: &[u8]) -> Vec<u8> {
     }
     o.extend_from_slice(b);
     o
+}
+
+/// The PreSharedKeyID encodings of the PSK proposals a commit carries by value, in wire order (None if the message
+/// is not a PublicMessage commit, or lists a proposal by reference or of a type whose length is not known here).
+pub fn commit_psk_ids(msg: &[u8]) -> Option<Vec<Vec<u8>>> {
+    let mut p = 0usize;
+    let take = |p: &mut usize, n: usize| -> Option<&[u8]> { let s = msg.get(*p..*p + n)?; *p += n; Some(s) };
+    let vec = |p: &mut usize| -> Option<(usize, usize)> { let (l, n) = read_varint(msg.get(*p..)?)?; *p += n; let st = *p; *p += l; if *p > msg.len() { return None; } Some((st, l)) };
+    if take(&mut p, 2)? != [0, 1] { return None; }           // version mls10
+    if take(&mut p, 2)? != [0, 1] { return None; }           // wire format: PublicMessage
+    vec(&mut p)?;                                             // group id
+    take(&mut p, 8)?;                                         // epoch
+    match take(&mut p, 1)?[0] { 1 => { take(&mut p, 4)?; } 4 => {} _ => return None } // sender: member / new_member_commit
+    vec(&mut p)?;                                             // authenticated data
+    if take(&mut p, 1)?[0] != 3 { return None; }              // content type: commit
+    let (st, l) = vec(&mut p)?;                               // proposals<V>
+    let mut q = st;
+    let end = st + l;
+    let mut ids = vec![];
+    while q < end {
+        let kind = *msg.get(q)?; q += 1;
+        if kind != 1 { return None; }                         // a reference: the PSK order is not visible here
+        let ty = u16::from_be_bytes([*msg.get(q)?, *msg.get(q + 1)?]); q += 2;
+        if ty != 4 { return None; }                           // only commits made of PSK proposals are decoded
+        let start = q;
+        let pt = *msg.get(q)?; q += 1;
+        match pt {
+            1 => { let (n, h) = read_varint(msg.get(q..)?)?; q += h + n; }
+            2 => { q += 1; let (n, h) = read_varint(msg.get(q..)?)?; q += h + n; q += 8; }
+            _ => return None,
+        }
+        let (n, h) = read_varint(msg.get(q..)?)?; q += h + n;  // nonce
+        ids.push(msg.get(start..q)?.to_vec());
+    }
+    Some(ids)
 }
 
 /// KDFLabel { uint16 length; opaque label<V>; opaque context<V> } -> (length, label, context)
@@ -154,7 +189,9 @@ impl KsDump {
                         Some((l, lab, c)) => (l, String::from_utf8_lossy(&lab).to_string(), c),
                         None => (usize::MAX, "?unparsed".to_string(), info.clone()),
                     };
-                    let f = Fact::Expand { prk: self.intern.id(prk), label, ctx: self.intern.id(&ctx), ctx_len: ctx.len(), lenfield, len: *len, ctx_bytes: if ctx.len() <= 8 { ctx.clone() } else { ctx[ctx.len() - 4..].to_vec() } };
+                    // the context without its last four bytes (PSKLabel: the PreSharedKeyID in front of index and count)
+                    let ctx_head = if ctx.len() > 4 { self.intern.id(&ctx[..ctx.len() - 4]) } else { 0 };
+                    let f = Fact::Expand { prk: self.intern.id(prk), label, ctx: self.intern.id(&ctx), ctx_len: ctx.len(), lenfield, len: *len, ctx_bytes: if ctx.len() <= 8 { ctx.clone() } else { ctx[ctx.len() - 4..].to_vec() }, ctx_head };
                     let o = self.intern.id(out);
                     self.push(o, f);
                     // message nonces are xored with a 4-byte reuse guard: also remember the tail
@@ -200,10 +237,10 @@ impl KsDump {
         // 1-byte export): the most recent one is the call the claim was made for
         match &fs[fs.len() - 1] {
             Fact::Extract { salt, ikm } => json!({"id": id, "op": "extract", "salt": self.prov(*salt, d - 1), "ikm": self.prov(*ikm, d - 1)}),
-            Fact::Expand { prk, label, ctx, ctx_len, lenfield, len, ctx_bytes } => {
+            Fact::Expand { prk, label, ctx, ctx_len, lenfield, len, ctx_bytes, ctx_head } => {
                 let t = &ctx_bytes[ctx_bytes.len().saturating_sub(4)..];
                 json!({"id": id, "op": "expand", "prk": self.prov(*prk, d - 1),
-                "label": label, "ctx": ctx, "ctxLen": ctx_len, "lenField": lenfield, "len": len,
+                "label": label, "ctx": ctx, "ctxLen": ctx_len, "lenField": lenfield, "len": len, "ctxHead": ctx_head,
                 // decoded views of short contexts: ASCII string ("left"/"right"), uint32 (generation), last two uint16 (PSKLabel index, count)
                 "ctxStr": if *ctx_len <= 8 && ctx_bytes.iter().all(|b| b.is_ascii_lowercase()) { String::from_utf8_lossy(ctx_bytes).to_string() } else { String::new() },
                 "ctxU32": if *ctx_len == 4 { u32::from_be_bytes([t[0], t[1], t[2], t[3]]) as i64 } else { -1 },
@@ -298,7 +335,7 @@ pub fn dump(out: &str, seed: u64, scenarios: usize) -> Result<Value, String> {
             let mut joiners = vec![];
             let res = {
                 let mut kps = vec![];
-                let kind = rng.random_range(0..5u32);
+                let kind = rng.random_range(0..7u32);
                 if (kind == 0 || members.len() < 2) && !pending_joiners.is_empty() {
                     let k = rng.random_range(1..=pending_joiners.len().min(2));
                     for _ in 0..k {
@@ -309,6 +346,7 @@ pub fn dump(out: &str, seed: u64, scenarios: usize) -> Result<Value, String> {
                     }
                 }
                 let g = w.parties.get_mut(&committer).unwrap().group.as_mut().unwrap();
+                let g_epoch = g.current_epoch();
                 let mut b = g.commit_builder();
                 for kp in kps {
                     b = b.add_member(kp).map_err(|e| format!("{e:?}"))?;
@@ -318,6 +356,13 @@ pub fn dump(out: &str, seed: u64, scenarios: usize) -> Result<Value, String> {
                 }
                 if kind == 2 {
                     b = b.add_external_psk(mls_rs::psk::ExternalPskId::new(b"k2".to_vec())).map_err(|e| format!("{e:?}"))?;
+                }
+                // mixed lists: an external and a resumption PSK in both orders (no joiners in these commits)
+                if joiners.is_empty() && (kind == 5 || kind == 6) {
+                    let e0 = g_epoch;
+                    if kind == 5 { b = b.add_external_psk(mls_rs::psk::ExternalPskId::new(b"k1".to_vec())).map_err(|e| format!("{e:?}"))?; }
+                    b = b.add_resumption_psk(e0).map_err(|e| format!("{e:?}"))?;
+                    if kind == 6 { b = b.add_external_psk(mls_rs::psk::ExternalPskId::new(b"k2".to_vec())).map_err(|e| format!("{e:?}"))?; }
                 }
                 if big_ctx && step_no == 0 {
                     let mut l = mls_rs::ExtensionList::new();
@@ -338,8 +383,18 @@ pub fn dump(out: &str, seed: u64, scenarios: usize) -> Result<Value, String> {
                 w.parties.get_mut(&j).unwrap().group = Some(g);
                 members.push(j);
             }
+            let psk_ids = res.commit_message.to_bytes().ok().and_then(|b| commit_psk_ids(&b));
             for m in members.clone() {
                 claim_member(&mut w, &mut d, &mut rows, &m, &mut rng);
+                // C13 / C18: the PSK chain of the new epoch takes the PSKs in the order the commit lists them
+                if let Some(ids) = psk_ids.as_ref() {
+                    if !ids.is_empty() {
+                        let g = w.parties[&m].group.as_ref().unwrap();
+                        let a = d.intern.id(g.epoch_authenticator().unwrap().as_bytes());
+                        let idl: Vec<u32> = ids.iter().map(|i| d.intern.id(i)).collect();
+                        rows.push(json!({"k": "pskorder", "party": m, "epoch": g.current_epoch(), "psks": idl, "prov": d.prov(a, 9)}));
+                    }
+                }
             }
             // application messages: sender encrypts a burst, one receiver decrypts one of them
             if members.len() >= 2 {
